@@ -204,6 +204,7 @@ def run_shard(spec):
             flags, argv = gen_flags(r, entry, focus) if entry in PARSER_ENTRIES else ({}, [])
             cases.append((entry, files, focus, flags, argv))
     home = os.getcwd()
+    ncase = 0
     for entry, files, focus, flags, argv in cases:
         col.eval()
         dirs = write_layout(root, files)
@@ -220,6 +221,17 @@ def run_shard(spec):
         try:
             want_cfg = M.effective(entry, files)
             want_ns = M.effective(entry, files, flags)
+            # what `nbdime --config` (all entry points) or `<command> --config` (one) do in a process that goes on to
+            # resolve options afterwards: the listing must not leak anything into later answers
+            ncase += 1
+            listing = {1: list(cfg.entrypoint_configurables), 2: [entry]}.get(ncase % 4, [])
+            for ep in listing:
+                try:
+                    cfg.build_config(ep, True)
+                    col.count("listing_mode_calls_before_a_judged_call")
+                except Exception as e:
+                    key, tmpl = nbd.exc_key(e)
+                    col.violation("listing-mode-raised:%s" % key, "build_config(%r, include_none=True): %s" % (ep, str(e)[:200]), wit, "build_config")
             try:
                 got = cfg.build_config(entry)
             except Exception as e:
